@@ -1382,9 +1382,11 @@ func (o *ovsdbClient) handleDisconnectNotification() {
 		return
 	}
 
-	// clear connection state
+	// clear connection state; rpcMutex is kept until all of it is cleared: a
+	// Connect that got in before that would have its new cache and monitors
+	// wiped out
 	o.rpcClient = nil
-	o.rpcMutex.Unlock()
+	defer o.rpcMutex.Unlock()
 
 	for _, db := range o.databases {
 		db.cacheMutex.Lock()
